@@ -10,9 +10,9 @@ import sympy
 from mc.engine import Section, jdump
 from mc.ref import linalg as L
 
-RULE = ("BFS over histories: roots = numeric, symbolic and mixed amplitude vectors on 1-2 qubits; events = wf[i]=v for every index (and -1), slice "
-        "assignments, wf.bind(m) for maps over {a,b}; state = canonical amplitude tuple (numbers rounded at 1e-12, expressions by srepr), which is "
-        "complete because a Wavefunction has no other field; every transition is compared with a plain-list reference model and the invariant is "
+RULE = ("BFS over histories: roots = numeric (flat and column-vector), symbolic and mixed amplitude vectors on 1-2 qubits; events = wf[i]=v for every index (and -1), slice "
+        "assignments, wf.bind(m) for maps over {a,b}, flip_wavefunction; state = (how the amplitudes are held: type/shape/dtype of .amplitudes, canonical amplitude tuple "
+        "with numbers rounded at 1e-12 and expressions by srepr) - the representation is part of the state because element access and roll-back depend on it; every transition is compared with a plain-list reference model and the invariant is "
         "evaluated in every state. non-trivial state = reached by at least one accepted or rejected mutation; plus constructor rejections, Dicke states "
         "for all n<=N,k<=n, bit-reversal on index vectors, save/load on reachable numeric states")
 ASSUMPTIONS = ["alphabet values keep |sum|a|^2 - 1| either < 1e-9 or > 1e-2: the library's own np.isclose tolerance edge is never probed",
@@ -22,7 +22,9 @@ S2 = 1 / np.sqrt(2)
 SYM = {n: sympy.Symbol(n) for n in "abc"}
 
 ROOTS = [["n", [1, 0]], ["n", [0, 0, 0, 1]], ["n", [S2, S2]], ["n", [S2, [0, S2]]], ["n", [0.6, 0.8]], ["n", [0.5, 0.5, 0.5, 0.5]], ["n", [0.6, 0, 0, [0, 0.8]]], ["n", [0.5, [0, 0.5], [0, -0.5], 0.5]],
-         ["s", ["a", "b"]], ["s", ["a", 0.6]], ["s", ["a", 0.5, "b", 0.5]]]
+         ["s", ["a", "b"]], ["s", ["a", 0.6]], ["s", ["a", 0.5, "b", 0.5]],
+         # numeric column vectors (shape (2^n, 1)): what a total bind returns, and what a user may pass
+         ["ncol", [0.6, 0.8]], ["ncol", [0.5, [0, 0.5], [0, -0.5], 0.5]]]
 VALUES = [0, 1, 0.6, 0.8, 0.5, S2, [0, S2], [0, -S2], -0.6, "a", "c"]
 BIND_VALUES = [0.5, 0.1, 0.9, 0.6, "c"]
 
@@ -41,6 +43,8 @@ def mk_root(root):
     vals = [val(v) for v in vec]
     if kind == "n":
         return Wavefunction(np.array(vals, dtype=complex)), list(map(complex, vals))
+    if kind == "ncol":
+        return Wavefunction(np.array(vals, dtype=complex).reshape(-1, 1)), list(map(complex, vals))
     return Wavefunction(sympy.Matrix(vals)), [v if isinstance(v, sympy.Basic) else complex(v) for v in vals]
 
 
@@ -100,6 +104,7 @@ def events_for(case):
     evs += [["setslice", [0, 2, 1], [0.8, 0.6]], ["setslice", [0, 2, 1], [1, 1]]]
     if n == 4:
         evs += [["setslice", [0, None, 2], [S2, S2]], ["setslice", [0, None, 2], [0.6, 0.6]]]
+    evs.append(["flip"])
     if case["root"][0] == "s":
         for va in BIND_VALUES + [None]:
             for vb in BIND_VALUES[:3] + [None]:
@@ -191,6 +196,21 @@ def step(case):
                     return {"ok": False, "msg": "bind(%s) result differs from substitution" % (ev[1],), "expected": str(model_snapshot(new)), "observed": str(snapshot(res)),
                             "sig": "bind:value", "key": None}
                 wf, model = res, new
+        elif ev[0] == "flip":
+            from orquestra.quantum.wavefunction import flip_wavefunction
+            nq = int(np.log2(len(model)))
+            new = [model[int(format(i, "0%db" % nq)[::-1], 2)] if nq else model[i] for i in range(len(model))]
+            res = flip_wavefunction(wf)
+            if snapshot(wf) != before:
+                return {"ok": False, "msg": "flip_wavefunction modified its argument", "sig": "flip:receiver", "key": None}
+            if snapshot(res) != model_snapshot(new):
+                return {"ok": False, "msg": "flip_wavefunction is not the bit-reversal permutation of the amplitudes", "expected": str(model_snapshot(new)), "observed": str(snapshot(res)),
+                        "sig": "flip:value", "key": None}
+            want_free = set().union(*[v.free_symbols for v in new if isinstance(v, sympy.Basic)] or [set()])
+            if set(res.free_symbols) != want_free:
+                return {"ok": False, "msg": "the flipped wavefunction reports free symbols %s, its amplitudes depend on %s" % (res.free_symbols, want_free), "sig": "flip:free-symbols", "key": None}
+            n_acc += 1
+            wf, model = res, new
         ok, why = invariant(wf)
         if not ok:
             return {"ok": False, "msg": "after %s the object violates the invariant: %s" % (ev, why), "observed": str(snapshot(wf)), "sig": "invariant", "key": None}
@@ -213,7 +233,11 @@ def step(case):
                 return {"ok": False, "msg": "get_outcome_probs[%s] is not the probability of basis state %d" % (key, i), "observed": str(op), "sig": "outcome-probs", "key": None}
         if abs(np.abs(np.asarray(wf.amplitudes, dtype=complex).reshape(-1) - amps).max()) > 1e-9:
             return {"ok": False, "msg": ".amplitudes differs from the entries", "sig": "amplitudes", "key": None}
-    return {"ok": True, "key": jdump(snap), "nt": bool(case["hist"]), "ops": max(1, len(case["hist"])),
+    # the canonical state includes how the amplitudes are held (flat array / column vector / symbolic matrix): element access and roll-back take
+    # different paths for them, so states that differ only in representation do NOT have the same futures and must not be merged
+    amp = wf.amplitudes
+    rep = [type(amp).__name__, list(np.shape(amp)), str(getattr(amp, "dtype", ""))]
+    return {"ok": True, "key": jdump([rep, snap]), "nt": bool(case["hist"]), "ops": max(1, len(case["hist"])),
             "out": "%s:acc%d:rej%d" % (case["root"][0], min(n_acc, 3), min(n_rej, 3))}
 
 
@@ -334,7 +358,7 @@ def run(run):
     depth = 5 if thorough else 3
     roots = ROOTS
     seen = run.bfs("histories", roots, events_for, step, depth,
-                   desc="BFS over assignment / slice-assignment / bind histories, depth %d, de-duplicated by canonical amplitude tuple" % depth)
+                   desc="BFS over assignment / slice-assignment / bind / flip histories, depth %d, de-duplicated by (representation of the amplitude store, canonical amplitude tuple)" % depth)
     # the section name used for replay lookup is 'histories@depthN' -> FUNCS key 'histories'
     C = []
     for ln in (0, 3, 5, 6, 12):
